@@ -145,7 +145,10 @@ struct App : AppSink {
     int exec_stream(const Action& a) {
         int op = -1;
         switch (a.kind) {
-            case Action::s_open: rs->open(); break;
+            case Action::s_open:
+                // (re)opening starts a new incarnation of the same stream object: operations are accepted again
+                if (terminal) { w.log(Ev::note, -1, -1, 0, "script: stream reopened after cancel()+close()"); terminal = false; expect_drain = false; }
+                rs->open(); break;
             // like the client's own use of the stream: at most one read, one write and one shutdown outstanding
             case Action::s_read: { if (busy(OpKind::s_read) || terminal) break; auto& r = new_op(OpKind::s_read); op = r.id; ++depth; rs->read(op, a.timeout_ms, a.with_slot); --depth; break; }
             case Action::s_write: { if (busy(OpKind::s_write) || terminal) break; auto& r = new_op(OpKind::s_write); op = r.id; r.payload = a.payload; ++depth; rs->write(op, a.payload, a.with_slot); --depth; break; }
